@@ -3,7 +3,7 @@ import panelmat
 
 
 def run(tier, seed, build):
-    return panelmat.run_prop("C03", ["kG0"], tier, seed, build, what=WHAT)
+    return panelmat.run_prop("C03", ["kG0", "kGc"], tier, seed, build, what=WHAT)
 
 
 WHAT = "the Hessian the specification derives"
